@@ -405,6 +405,16 @@ def family_generics():
     m.entry([INT, BYTES], TP(INT, BYTES), {"k": "tuple", "es": [call("choose", binop(">", A, I(0)), A, I(9)), call("choose", binop(">", A, I(0)), B, {"k": "bytes", "bs": [7]})]}, grid)
     m.entry([INT, BYTES], TP(TList(INT), TP(INT, BYTES)), {"k": "tuple", "es": [call("choose", binop(">", A, I(0)), call("singleton", A), {"k": "list", "es": []}),
                                                                                call("choose", binop("<", A, I(0)), call("pair_up", A, B), call("pair_up", I(0), B))]}, grid)
+    # the type variable itself instantiated to a list and to a pair-list (a map) in one program, in both orders
+    ints = {"k": "list", "es": [A, I(2)]}
+    prs = {"k": "list", "es": [{"k": "pair", "a": A, "b": B}]}
+    m.entry([INT, BYTES], TP(TOption(TList(INT)), TOption(pairs_ty)), {"k": "tuple", "es": [call("wrap_opt", ints), call("wrap_opt", prs)]}, grid)
+    m.entry([INT, BYTES], TP(TOption(pairs_ty), TOption(TList(INT))), {"k": "tuple", "es": [call("wrap_opt", prs), call("wrap_opt", ints)]}, grid)
+    m.entry([INT, BYTES], TP(TList(TList(INT)), TList(pairs_ty)), {"k": "tuple", "es": [call("singleton", ints), call("singleton", prs)]}, grid)
+    m.entry([INT, BYTES], TP(TList(pairs_ty), TList(TList(INT))), {"k": "tuple", "es": [call("singleton", prs), call("singleton", ints)]}, grid)
+    m.entry([INT, BYTES], TP(TList(INT), pairs_ty), {"k": "tuple", "es": [call("choose", binop(">", A, I(0)), ints, {"k": "list", "es": []}), call("choose", binop(">", A, I(0)), prs, {"k": "list", "es": []})]}, grid)
+    m.entry([INT, BYTES], TP(TP(TList(INT), pairs_ty), TP(pairs_ty, TList(INT))), {"k": "tuple", "es": [call("pair_up", ints, prs), call("pair_up", prs, ints)]}, grid)
+    m.entry([INT, BYTES], INT, binop("+", call("count", ints), call("count", prs)), grid)
     return [m.done("generics")]
 
 
